@@ -261,6 +261,16 @@ C10RespCauses(n, r) ==
        (IF c.abs > 0 /\ t > logins[sid].at + c.abs THEN {"honoured-after-absolute-timeout"} ELSE {})
        \cup (IF c.idle > 0 /\ Has(lastUse, sid) /\ t > lastUse[sid] + c.idle THEN {"honoured-after-idle-timeout"} ELSE {})
 
+\* the pending login state of a session is bound by the same limits: a callback does not find it after they have passed
+C10CallbackCauses(n, r) ==
+  LET sid == Req(n).cookie
+      c   == flt[r.f]
+      ar  == SelectSeq(Ops(n, "GetAuthorizationState"), LAMBDA x : x.e.sid = sid /\ Good(x) /\ x.e.res.ex)
+  IN IF Req(n).kind # "callback" \/ ~Has(logins, sid) \/ Len(ar) = 0 \/ logins[sid].f # r.f THEN {}
+     ELSE LET t == ar[1].at IN
+       (IF c.abs > 0 /\ t > logins[sid].at + c.abs THEN {"login-state-honoured-after-absolute-timeout"} ELSE {})
+       \cup (IF c.idle > 0 /\ t > (IF Has(lastUse, sid) THEN lastUse[sid] ELSE logins[sid].at) + c.idle THEN {"login-state-honoured-after-idle-timeout"} ELSE {})
+
 \* a session inside both limits (with a second to spare) that nothing removed is not dropped
 C10DropCauses(n, r) ==
   LET sid == Req(n).cookie
@@ -438,7 +448,7 @@ RespViol(n, r) ==
   \cup Tag("C05", "CookieAndSessionId", C05RespCauses(n, r), n)
   \cup Tag("C06", "ValuesFresh", C06RespCauses(n, r), n)
   \cup Tag("C09", "LogoutFinal", C09RespCauses(n, r), n)
-  \cup Tag("C10", "NeverHonouredLate", C10RespCauses(n, r), n)
+  \cup Tag("C10", "NeverHonouredLate", C10RespCauses(n, r) \cup C10CallbackCauses(n, r), n)
   \cup Tag("C11", "RefreshMerge", C11RespCauses(n, r), n)
   \cup Tag("C13", "Redirects", C13RespCauses(n, r), n)
   \cup Tag("C14", "NoLeak", C14RespCauses(n, r), n)
